@@ -18,7 +18,7 @@ from the input has an upper-bound fact.  Values pushed into the decoded message 
 NOT_DECIDED = "that the concatenated values equal the input after the header as an equality of byte strings (only its provenance half)"
 TRUSTED = ["std io::Cursor/Read, byteorder reads return Err instead of panicking on short input",
            "external callees not in the panicking-precondition table do not panic (listed in the evidence)"]
-ASSUMPTIONS = ["conditions of debug_assert!/debug_assert_eq! that the prover cannot discharge are taken to hold: they exist only under cfg(debug_assertions) and are absent from a release build (count in the evidence: debug_assertions_assumed)", "memory allocation succeeds"]
+ASSUMPTIONS = ["the release configuration is analysed (-C debug-assertions=off, overflow checks kept as obligations): debug_assert!() and cfg(debug_assertions) code is compiled out and not part of the decided behaviour", "memory allocation succeeds"]
 
 MSG = "roughenough::message::RtMessage"
 ROOTS = [MSG + "::from_bytes", "<roughenough::message::RtMessage as core::fmt::Display>::fmt"]
